@@ -29,7 +29,7 @@ theorem persist_runSpec (c : Conn) (hcl : c.Clean) (msg : Bytes) (h : Handle) (d
       | none =>
         simp only [hi] at hr hw ⊢
         rw [hr]
-        have := runSpec_ret (.raised (persistExc .integrity)) (.raised .duplicateSeqNo)
+        have := runSpec_ret (.raised .duplicateSeqNo) (.raised .duplicateSeqNo)
           (c.exec (.insertMsg q h.key dir msg)).1 true m (fun _ => rfl)
           (by simp only [Conn.Clean, hw, hc]; exact hcl)
         rwa [hw, hc] at this
@@ -55,11 +55,15 @@ theorem persist_runSpec (c : Conn) (hcl : c.Clean) (msg : Bytes) (h : Handle) (d
       obtain ⟨hr, hw, hc⟩ := exec_fail c _ hb1
       simp only [hb0, Bool.not_false, if_true]
       rcases hr with hr | hr <;> rw [hr]
-      · have := runSpec_ret (.raised (persistExc .overflow)) (.raised .overflow)
-          (c.exec (.insertMsg q h.key dir msg)).1 false m (fun hf => by cases hf)
-          (by simp only [Conn.Clean, hw, hc]; exact hcl)
-        rwa [hw, hc] at this
-      · have := runSpec_ret (.raised (persistExc .integrity)) (.raised .overflow)
+      · -- OverflowError: `except Exception` rolls back (the transaction the implicit BEGIN opened)
+        have := runSpec_rollback_ret (.raised (excOf .overflow)) (.raised .overflow)
+          (c.exec (.insertMsg q h.key dir msg)).1 false m htx (fun hf => by cases hf)
+        rw [hc] at this
+        have hcl' : c.working = c.committed := hcl
+        rw [hcl']
+        exact this
+      · -- reported as IntegrityError through a stale error code: DuplicateSeqNoError, no rollback
+        have := runSpec_ret (.raised .duplicateSeqNo) (.raised .overflow)
           (c.exec (.insertMsg q h.key dir msg)).1 false m (fun hf => by cases hf)
           (by simp only [Conn.Clean, hw, hc]; exact hcl)
         rwa [hw, hc] at this
